@@ -12,6 +12,8 @@
 //!   (file (LINE...))                   256 stored masks -> decompile -> labels -> recompile     [oracle]
 //!   (swspec (LINE...) LABEL ARG...)    exactly-one / per-difficulty value / aux bits            [oracle]
 //!   (swrt (LINE...) LABEL ARG...)      compile -> decompile (switch recovery on) -> recompile   [oracle]
+//!   (raise GAME (LINE...) SIGS INSTR...)   raw instructions -> the real raiser vs `DiffRaise.recognize`   [corr]    (c14_raise.rs)
+//!   (raisert GAME (LINE...) SIGS INSTR...) raw instructions -> decompile -> recompile                      [oracle]  (c14_raise.rs)
 
 use super::{Case, Prop, Tier, Failure, fail, default_judge};
 use crate::rng::Rng;
@@ -579,14 +581,16 @@ fn gen_switch_args(rng: &mut Rng, nested: bool) -> Vec<Sexp> {
 impl Prop for C14 {
     fn id(&self) -> &'static str { "C14" }
     fn relation(&self) -> &'static str {
-        "table: for all 256 masks, (mask_to_diff_label(m), parse_diff_string(label)) of the real DiffFlagDefs filled from a user mapfile == Lean (`Diff.label`, `Diff.parse`) on `applyLines defaultDefs`; parse: parse_diff_string == `Diff.parse` incl. error class; switch/assign: (difficulty byte, argument values) of the instructions the real TH06 ECL compiler emits for a statement with difficulty switches == Lean `Diff.expand` / `Diff.assignCopies`; unit: select_diff_switch_case / explicit_difficulty_cases / explicit_case_bitmasks == `selectCase` / `explicitCases` / `caseRanges`"
+        "table: for all 256 masks, (mask_to_diff_label(m), parse_diff_string(label)) of the real DiffFlagDefs filled from a user mapfile == Lean (`Diff.label`, `Diff.parse`) on `applyLines defaultDefs`; parse: parse_diff_string == `Diff.parse` incl. error class; switch/assign: (difficulty byte, argument values) of the instructions the real TH06 ECL compiler emits for a statement with difficulty switches == Lean `Diff.expand` / `Diff.assignCopies`; unit: select_diff_switch_case / explicit_difficulty_cases / explicit_case_bitmasks == `selectCase` / `explicitCases` / `caseRanges`; raise: statement list (time, offset label in front, difficulty label text, kind, opcode, arguments with their switch structure, float arguments bit for bit) that the real `llir::Raiser` (TH06 / TH07 / TH08 ECL hooks, default options: intrinsics, calls and difficulty switches on) produces for a raw instruction list == Lean `DiffRaise.recognize` + `printLabel`"
     }
     fn rule(&self) -> &'static str {
-        "tables: the bundled th06/th08 tables, all-default-on, interleaved aux/difficulty bits, random tables of 0-8 `!difficulty_flags` lines over 28 names (with upper/lower-case pairs) (main stream: accepted tables; tables with a line naming a second bit with an existing name form the tagged stream `table-name-at-two-indices` and must be rejected with a diagnostic), malformed lines (index 8/-1, bad name, bad sign, wrong length, two-byte character); every table x all 256 masks (exhaustive in the mask).  parse: strings over the table's names, `+ - *`, unknown and invalid characters.  switch: 1-3 arguments, 1-3 switches of 2-8 cases with holes, under no label / `*` / random labels incl. `-aux`; separate streams for nested switches, mismatched lengths and 9 cases.  non-trivial = table or statement with at least one switch; distinct by case text"
+        "tables: the bundled th06/th08 tables, all-default-on, interleaved aux/difficulty bits, random tables of 0-8 `!difficulty_flags` lines over 28 names (with upper/lower-case pairs) (main stream: accepted tables; tables with a line naming a second bit with an existing name form the tagged stream `table-name-at-two-indices` and must be rejected with a diagnostic), malformed lines (index 8/-1, bad name, bad sign, wrong length, two-byte character); every table x all 256 masks (exhaustive in the mask).  parse: strings over the table's names, `+ - *`, unknown and invalid characters.  switch: 1-3 arguments, 1-3 switches of 2-8 cases with holes, under no label / `*` / random labels incl. `-aux`; separate streams for nested switches, mismatched lengths and 9 cases.  raise: scripts of 1-3 per-difficulty ladders (a user-signature instruction with 1-3 int / float arguments, the int / float assignment intrinsic, the EoSD compare intrinsic) for TH06 / TH07 / TH08 under the bundled and generated tables, 2-8 difficulty groups that are contiguous / with a hole / overlapping / descending / shuffled / repeated / empty / not starting at difficulty 0 / covering fewer than four difficulties, aux bits kept, partly off or differing between rungs, first mask 0xFF, a time change inside, another opcode / register / kind on one rung, columns constant / varying / equal only as floats (0.0 vs -0.0) / NaN, single instructions around, jumps that put a label in front of any instruction (tags raise-*); the same scripts through compile(decompile(file)) (raisert).  non-trivial = table or statement with at least one switch, or a script with a ladder; distinct by case text"
     }
     fn theorems(&self) -> &'static [&'static str] {
         &["TruthModel.C14.label_parse", "TruthModel.C14.label_parse_mapfile", "TruthModel.C14.reachable_inv", "TruthModel.C14.defineFromMapfile_inv",
-          "TruthModel.C14.expand_exactly_one_full", "TruthModel.C14.selArg_stable", "TruthModel.C14.assign_exactly_one"]
+          "TruthModel.C14.expand_exactly_one_full", "TruthModel.C14.selArg_stable", "TruthModel.C14.assign_exactly_one",
+          "TruthModel.C14.recognize_sound", "TruthModel.C14.recognize_expand", "TruthModel.C14.lowerStmt_canonical", "TruthModel.C14.recognize_preserves_times",
+          "TruthModel.C14.recognize_no_fold_across_label", "TruthModel.C14.recognize_fold_masks", "TruthModel.C14.recognize_unsound_signed_zero", "TruthModel.C14.recognize_unsound_unraisable"]
     }
 
     fn gen(&self, tier: Tier, rng: &mut Rng) -> Vec<Case> {
@@ -701,6 +705,8 @@ impl Prop for C14 {
             for d in 0..n { if d > 0 && rng.chance(1, 2) { v.push(Sexp::atom("_")); } else { v.push(Sexp::int(rng.small_int() * 7 + d as i32)); } }
             out.push(Case::corr(Sexp::app("unit", v)).tag("unit"));
         }
+        // the decompile direction: raw per-difficulty ladders -> the real raiser vs `DiffRaise.recognize`
+        out.extend(super::c14_raise::gen(tier, rng, &mut |rng| gen_inv_table(rng)));
         out
     }
 
@@ -717,6 +723,7 @@ impl Prop for C14 {
             Some("swfloat") => swfloat_case(&a[0], &a[1], match &a[2] { Sexp::Atom(s) if s == "none" => None, x => Some(x.as_i64() as u32) }, &a[3..]),
             Some("swrt") => swrt_case(&a[0], &a[1], &a[2..]),
             Some("nestlab") => nestlab_case(&a[0], &a[1..]),
+            Some("raise" | "raisert") => super::c14_raise::eval(case),
             _ => Sexp::atom("bad-case"),
         }
     }
@@ -746,6 +753,7 @@ impl Prop for C14 {
         match case.head() {
             Some("table") => vec![Case::search(Sexp::app("file", case.args().to_vec()))],
             Some("switch") => vec![Case::search(Sexp::app("swspec", case.args().to_vec())), Case::search(Sexp::app("swrt", case.args().to_vec()))],
+            Some("raise") => super::c14_raise::neighbours(case),
             _ => vec![],
         }
     }
